@@ -66,6 +66,20 @@ def _cells_work(chunk):
     return judge_cells(chunk)
 
 
+def _order_work(chunks):
+    out = []
+    for cells in chunks:
+        kinds = ["null", "bool", "int", "float", "str"]
+        a = sorted(cells, key=lambda c: (kinds.index(c["hay"]["t"]), c["hay"]["v"], c["op"], c["needle"]))
+        b = sorted(cells, key=lambda c: (-kinds.index(c["hay"]["t"]), c["hay"]["v"], c["op"], c["needle"]))
+        ra = {(c["op"], c["needle"], c["hay"]["t"], c["hay"]["v"]): (c, got, err) for c, got, err in judge_cells(a)}
+        for c, got, err in judge_cells(b):
+            c0, got0, err0 = ra[(c["op"], c["needle"], c["hay"]["t"], c["hay"]["v"])]
+            if (got, err) != (got0, err0):
+                out.append((c, got0 if not err0 else err0, got if not err else err))
+    return out
+
+
 def run(ctx):
     f = ctx.path("grid.cases")
     r = core.run_tlc(ctx, "MC_Compare", "MC_Compare.cfg", env={"CASES_OUT": f})
@@ -96,6 +110,13 @@ def run(ctx):
                 ctx.violation("cell:%s:%s-vs-%s" % (c["op"], c["hay"]["t"], "num" if c["needle"].lstrip("+-").replace(".", "", 1).isdigit() else "text"),
                               "search_matches(%s, needle=%r, haystack=%r) = %s, documented rules give %s" % (
                                   c["op"], c["needle"], c["hay"], got, c["m"]), {"kind": "cell", "cell": c})
+    # ---- search_matches is a function of (operator, term, value): the specification's Matches has no state.  The whole grid is
+    # evaluated twice in ONE process, in two different orders (by value kind ascending / descending); the answers must agree.
+    for c, first, second in querycorpus.pmap(_order_work, [cells], chunk=1):
+        ctx.violation("stateful:%s:%s" % (c["op"], c["hay"]["t"]),
+                      "search_matches(%s, needle=%r, haystack=%r) answered %s in one evaluation order and %s in another (same process)" % (
+                          c["op"], c["needle"], c["hay"], first, second), {"kind": "cell", "cell": c})
+    ctx.coverage["order_independence_cells"] = 2 * len(cells)
     # ---- C->S: seeded random scalars and terms beyond the pool (Batch_Compare)
     import random
     rng = random.Random(ctx.seed)
